@@ -22,8 +22,9 @@ RULE = ("Fixed fault list, fully enumerated in both tiers: every fault is inject
         "YAML; pattern missing / null / scalar / empty; config null / list / scalar; non-boolean full-match flags; sections "
         "scalar / list of ints; empty $or/$and/$and_any_order; $not with 0 and 2 arguments; $deref without main_reg / with an empty field list / empty body; times "
         "negative (int and min/max, both spellings), inverted, non-numeric; undefined macro (with and without definitions in "
-        "play); macro name without '@'; macros not a list. Outcome error = held; found = tolerated (shown, not judged); "
-        "'not found' (False / [] / exit 0 + 'Pattern not found') = violation. Trace rule (hook H3 on regex.search/finditer "
+        "play); macro name without '@'; macros not a list. Outcome error = held; any normal termination (False / [] / found / "
+        "exit 0) = violation, because the statement requires the operation to terminate with an error; only for the two "
+        "faults this harness adds beyond the statement's list (non-numeric times) 'found' is tolerated and shown. Trace rule (hook H3 on regex.search/finditer "
         "as seen from jasm.consumer): every API run that returns 'not found' must contain a scan event whose subject decodes to "
         "the R-line instruction list of the input named in the request (also evaluated on fault-free negative controls). "
         "Non-trivial = every (fault, base, route) execution; distinct = (fault, base, route).")
@@ -237,6 +238,12 @@ def api_run(rule_path, inp, binary, macros, ret):
     return r, list(REC.events)
 
 
+# Faults that are NOT in the statement's list (additions of this harness): for them only a silent 'not found' is a
+# violation and 'found' is shown as tolerated. For every other fault the statement requires the operation to
+# terminate with an error, so 'found' is a violation as well.
+TOLERANT_FAULTS = {"times-non-numeric", "times-non-numeric-sibling"}
+
+
 def classify_outcome(r):
     if r[0] == "exc":
         return "error"
@@ -254,16 +261,16 @@ def judge_api(ctx, ws, fault, base, rule_path, inp, macros, envfn=None, key=None
         ctx.event("fault_runs_judged")
         ctx.case((fault, base["name"], "api-" + ret), True, stratum=fault, outcome=out)
         ctx.event("api:" + out)
-        if out == "found":
+        if out == "found" and fault in TOLERANT_FAULTS:
             ctx.event("tolerated:" + fault)
-        if out == "not found":
+        if out == "not found" or (out == "found" and fault not in TOLERANT_FAULTS):
             try:
                 rt = open(rule_path, "rb").read().decode("utf-8", "replace")
             except Exception:  # noqa: BLE001
                 rt = None
             ctx.disagreement({"fault": fault, "base": base["name"], "route": "api-" + ret, "rule": rt,
                               "input": inp, "binary": base["binary"]},
-                             f"fault '{fault}' injected into base '{base['name']}' (fault-free verdict: found): the API returned {r[1]!r} "
+                             f"fault '{fault}' injected into base '{base['name']}' (fault-free verdict: found): the API returned {str(r[1])[:80]!r} "
                              f"instead of raising; scan events: {len([e for e in events if e[0] == 'scan'])}", key)
             return
     ctx.sample(fault, {"fault": fault, "base": base["name"], "outcome": out, "detail": list(r[:3])[1:3] if r[0] == "exc" else str(r[1])[:80]})
@@ -295,7 +302,7 @@ def judge_cli(ctx, ws, fault, base, rule_path, inp, macros, env_path=None, key=N
         out = "exit 0 without a RESULT line"
     ctx.case((fault, base["name"], "cli"), True, stratum=fault, outcome="cli:" + out)
     ctx.event("cli:" + out)
-    if out in ("not found", "exit 0 without a RESULT line"):
+    if out in ("not found", "exit 0 without a RESULT line") or (out == "found" and fault not in TOLERANT_FAULTS):
         ctx.disagreement({"fault": fault, "base": base["name"], "route": "cli", "argv": cmd, "stderr_tail": p.stderr[-600:]},
                          f"fault '{fault}' injected into base '{base['name']}': `jasm` exited 0 with '{out}'", key)
 
